@@ -119,15 +119,18 @@ Theorem C11_update_reader_fresh : forall (rf : oracle -> msg -> sink -> rres) (s
 Proof. exact update_reader_fresh. Qed.
 Print Assumptions C11_update_reader_fresh.
 
-(* S/MIME: the same with write_to_signed; the only draw a later render still uses is the wrapper
-   boundary (it is not cached) — the signed entity never depends on it, nor on the destination *)
+(* S/MIME: the same with write_to_signed, for the paths that sign (all but WriteToSkipMiddleware, which
+   writes the unsigned message and is not one of the property's paths); the only draw a later render
+   still uses is the wrapper boundary (it is not cached) — the signed entity never depends on it, nor on
+   the destination *)
 Theorem C11_signed_paths_agree : forall (signer : bytes -> bytes) (o1 : oracle) (m : msg) (k1 : sink) (ops : list op) (e : enc) (rd : option reader),
   files_ok m -> clean (resolve (o_date o1) (o_msgid o1) (o_rb o1) m) ->
   forallb (fun x => negb (is_edit x)) ops = true ->
+  forallb signing_op ops = true ->
   let m1 := rr_msg (render_signed signer o1 m k1) in
   run_ops (render_signed signer) (mkps (mkb e m1) rd) ops =
   (mkps (mkb e m1) (fst (ref_ops (first_signed signer o1 m) rd ops)), snd (ref_ops (first_signed signer o1 m) rd ops)).
-Proof. exact signed_paths_agree. Qed.
+Proof. exact signed_paths_agree_signing. Qed.
 Print Assumptions C11_signed_paths_agree.
 
 Theorem C11_signed_same_entity : forall (signer : bytes -> bytes) (o1 : oracle) (m : msg) (sb : bytes) (k : sink) (sb' : bytes) (k' : sink),
